@@ -392,7 +392,7 @@ def run_pool_check(pid, meta, flavour, argv, quick_n, thorough_n):
     else:
         n = quick_n if ck.tier == "quick" else thorough_n
         hs = CORPUS + [gen_history(ck.rng, flavour) for _ in range(n)]
-    ck.correspond(hb, db, hs, label="pool", nontrivial=nontrivial, timeout=1500,
+    ck.correspond(hb, db, hs, label="pool", nontrivial=nontrivial, timeout=1500 if ck.tier == "quick" else 7200,
                   ubsan_is_violation=r"memoryPool\.|serial/(memory|buffer|device)\.|core/(memory|buffer|device)\.")
     cnt = ck.cov["counters"]
     # path coverage, measured on the implementation's own observations of a sample of the histories:
